@@ -6,6 +6,7 @@ from ..ref import ops
 
 ID = "C03"
 LEVEL = "exploration"
+TECHNIQUE = "runtime monitoring: reference-model oracle (direct long-double Green's-function convolution, impulse responses vs G itself) + bitwise call-history differential on one solver object + sibling objects in one process"
 TITLE = "Unbounded Poisson solve equals the free-space Green's-function convolution"
 RULE = (
     "solver objects over random non-square/non-cubic shapes (odd and even sizes), domain lengths "
